@@ -56,6 +56,8 @@ func runC05(c *Ctx) {
 	if sc == nil {
 		return
 	}
+	R.Rule("C05.R6", "what the gate let through is what the caller gets: the entry points return the sanitiser's output unmodified (= C15.R1, cited) — a normalisation of the finished output (dropping bytes, case folding) can re-form a script/style tag from a name that passed the gate")
+	c15FunnelRule(c, "C05.R6")
 	R.Rule("C05.R5", "the name the gate judges is the name that is written: token.Data is never stored to in sanitize after the token was read")
 	tokenNameFixed(c, "C05.R5", "the script/style gate (and the most-recently-started variable) judged another spelling than the one Token.String() emits — a name that only becomes \"script\" after the rewrite passes the gate")
 	R.Rule("C05.R4", "raw text arrives whole: the tokenizer runs in its default configuration (only Next/Token/Err/Raw are called on it), so the body of a script or style element is one text token directly after its start tag — the only shape the most-recently-started test suppresses")
